@@ -235,6 +235,24 @@ def run_batches(ctx, binary, batches, shards=None, timeout=3000, crit=nontrivial
             continue
         ctx.cov.setdefault("soft_mismatches", {})[fp] = len(lst)
         failures.append((fp, "%d sub-cases, %d of %d re-executions reproduced; first: %s" % (len(lst), rep, len(sb), lst[0][1]["detail"]), lst[0][0], True))
+    # re-execute at most REEXEC sub-cases per predicted fingerprint (a fingerprint is reported only after it reproduced);
+    # members of poisoned batches carry no prediction and are all re-executed
+    REEXEC = 5
+    seen_fp, kept, attributed = {}, [], {}
+    for bc1, first in suspects:
+        fl = (first or {}).get("fails") if isinstance(first, dict) else None
+        if not fl:
+            kept.append((bc1, first))
+            continue
+        key = "|".join(sorted({fingerprint(ctx.id, bc1, bc1["subs"][0], f) for f in fl}))
+        seen_fp[key] = seen_fp.get(key, 0) + 1
+        if seen_fp[key] <= REEXEC:
+            kept.append((bc1, first))
+        else:
+            attributed[key] = attributed.get(key, 0) + 1
+    if attributed:
+        ctx.cov["failing_subcases_not_reexecuted"] = attributed
+    suspects = kept
     if suspects:
         ctx.log("%d sub-cases to re-execute alone" % len(suspects))
         sb = [s for s, _ in suspects]
